@@ -1,3 +1,7 @@
 import Cql.Audit
 import Cql.Props.C11
+import Cql.Props.C13AsWritten
+import Cql.Props.C03AsWritten
 #audit_namespace Cql.Props.C11
+#audit_namespace Cql.Props.C13AsWritten
+#audit_namespace Cql.Props.C03AsWritten
